@@ -293,8 +293,8 @@ structure Inv1 (P : Prog) (s : Storage) : Prop where
   nodes : ∀ n r, alookup s.derived n = some r → NodeOk P s n r
 
 /-- `NodeOk` only looks at the epoch, the sources and the tracked fields -/
-theorem NodeOk.congr {P : Prog} {s s' : Storage} {n : NodeId} {r : Rev}
-    (he : s'.epoch = s.epoch) (hs : s'.srcs = s.srcs) (hm : s'.maps = s.maps) (h : NodeOk P s n r) :
+theorem NodeOk.congr {P : Prog} {s : Storage} {n : NodeId} {r : Rev} (h : NodeOk P s n r) {s' : Storage}
+    (he : s'.epoch = s.epoch) (hs : s'.srcs = s.srcs) (hm : s'.maps = s.maps) :
     NodeOk P s' n r := by
   refine ⟨by rw [he]; exact h.tv_le, h.srcOnly, h.stamps, ?_, ?_⟩
   · intro ht; have := h.fresh_now (by rw [← he]; exact ht)
@@ -304,8 +304,8 @@ theorem NodeOk.congr {P : Prog} {s s' : Storage} {n : NodeId} {r : Rev}
     · intro d hd k hk; have := hf d hd k hk; rw [hs] at this; exact this
     · intro k hk; have := hag k hk; rw [hs, hm] at this; exact this
 
-theorem Inv1.congr {P : Prog} {s s' : Storage} (hst : s'.stack = []) (he : s'.epoch = s.epoch)
-    (hs : s'.srcs = s.srcs) (hm : s'.maps = s.maps) (hd : s'.derived = s.derived) (h : Inv1 P s) : Inv1 P s' :=
+theorem Inv1.congr {P : Prog} {s : Storage} (h : Inv1 P s) {s' : Storage} (hst : s'.stack = []) (he : s'.epoch = s.epoch)
+    (hs : s'.srcs = s.srcs) (hm : s'.maps = s.maps) (hd : s'.derived = s.derived) : Inv1 P s' :=
   ⟨hst, by intro k nd hk; rw [he]; rw [hs] at hk; exact h.srcTu k nd hk,
    by intro n r hn; rw [hd] at hn; exact (h.nodes n r hn).congr he hs hm⟩
 
@@ -337,10 +337,10 @@ theorem anyDep_srcOnly (ex : Storage → NodeId → Storage × Res Bool) :
 
 /-- a node just executed (its frame started empty) satisfies `NodeOk` -/
 theorem nodeOk_fresh_exec {P : Prog} {s : Storage} {id : NodeId} {call : Storage → NodeId → Storage × Res Nat}
-    {fr' : Frame} {v tu : Nat} {rest : List Frame} {s0 : Storage}
+    {fr' : Frame} {v : Nat} {rest : List Frame} {s0 : Storage}
+    (r : FlatRes call P (fnOf P id.fn).body id.arg s0 ⟨id, [], 1⟩ rest v fr') (tu : Nat)
     (he : s0.epoch = s.epoch) (hs : s0.srcs = s.srcs) (hm : s0.maps = s.maps)
-    (hsrcTu : ∀ k nd, alookup s.srcs k = some nd → nd.tu ≤ s.epoch)
-    (r : FlatRes call P (fnOf P id.fn).body id.arg s0 ⟨id, [], 1⟩ rest v fr') :
+    (hsrcTu : ∀ k nd, alookup s.srcs k = some nd → nd.tu ≤ s.epoch) :
     NodeOk P s id (Rev.mk v tu s.epoch fr'.rdeps.reverse) := by
   have hg : FrameGood s0 fr' := r.good (fun d hd => by cases hd)
   refine ⟨Nat.le_refl _, ?_, ?_, ?_, ?_⟩
@@ -361,5 +361,334 @@ theorem nodeOk_fresh_exec {P : Prog} {s : Storage} {id : NodeId} {call : Storage
     intro k hk
     have := hag k ((depKeys_reverse _ _).2 hk)
     rw [hs, hm]; exact this
+
+
+theorem flat_fnOf {P : Prog} (h : Flat P) (f : Nat) : (fnOf P f).body.noCall = true := by
+  unfold fnOf
+  rw [List.getD_eq_getElem?_getD]
+  cases hg : P[f]? with
+  | none => rfl
+  | some fn => exact h fn (List.mem_of_getElem? hg)
+
+theorem invoke_flat (call : Storage → NodeId → Storage × Res Nat) (c : NodeId → Res Nat) {P : Prog} (hflat : Flat P)
+    (s : Storage) (id : NodeId) (v : Nat) (hst : s.stack = [])
+    (hv : evalPS c P s.srcs s.maps (fnOf P id.fn).body id.arg = .ok v) :
+    ∃ fr', invoke call P s id = ({ s with runs := bump s.runs id.fn, log := id :: s.log }, .ok (v, fr')) ∧
+      FlatRes call P (fnOf P id.fn).body id.arg
+        { s with stack := ⟨id, [], 1⟩ :: s.stack, runs := bump s.runs id.fn, log := id :: s.log } ⟨id, [], 1⟩ [] v fr' := by
+  obtain ⟨fr', r⟩ := evalE_flat call c P _ (flat_fnOf hflat id.fn) id.arg
+    { s with stack := ⟨id, [], 1⟩ :: s.stack, runs := bump s.runs id.fn, log := id :: s.log } ⟨id, [], 1⟩ [] v
+    (by simp [hst]) hv
+  refine ⟨fr', ?_, r⟩
+  unfold invoke
+  have hany : (s.stack.any fun fr => decide (fr.id = id)) = false := by simp [hst]
+  simp only [hany]
+  simp only [Bool.false_eq_true, if_false, r.eq]
+  cases s; simp only at hst; subst hst; rfl
+
+/-- `exec` after its first line (the push onto `top_level_calls`) -/
+def execBody (fuel : Nat) (P : Prog) (s : Storage) (id : NodeId) : Storage × Res Bool :=
+    match alookup s.derived id with
+    | some rev =>
+      if rev.tv = s.epoch then (regDep s (.derived id) rev.tu, .ok false)
+      else
+        let s := setTv s id s.epoch
+        match anyDep (depChanged (exec fuel P)) rev.deps s with
+        | (s, .panic p) => (s, .panic p)
+        | (s, .ok false) => (regDep s (.derived id) rev.tu, .ok false)
+        | (s, .ok true) =>
+          match invoke (callVia (exec fuel P)) P s id with
+          | (s, .panic p) => (s, .panic p)
+          | (s, .ok (v, fr)) =>
+            match alookup s.derived id with
+            | none => (s, .panic .missingNode)
+            | some r' =>
+              if rev.val ≠ v then
+                let s := { s with derived := ainsert s.derived id (Rev.mk v fr.maxTu r'.tv fr.rdeps.reverse) }
+                (regDep s (.derived id) fr.maxTu, .ok true)
+              else
+                let s := { s with derived := ainsert s.derived id (Rev.mk r'.val r'.tu r'.tv fr.rdeps.reverse) }
+                (regDep s (.derived id) fr.maxTu, .ok false)
+    | none =>
+      match invoke (callVia (exec fuel P)) P s id with
+      | (s, .panic p) => (s, .panic p)
+      | (s, .ok (v, fr)) =>
+        let s := { s with derived := ainsert s.derived id (Rev.mk v fr.maxTu s.epoch fr.rdeps.reverse) }
+        (regDep s (.derived id) fr.maxTu, .ok true)
+
+def pushTop (s : Storage) (id : NodeId) : Storage :=
+  if s.stack.isEmpty then { s with topCalls := s.topCalls ++ [id], pushes := s.pushes ++ [id] } else s
+
+theorem exec_succ (fuel : Nat) (P : Prog) (s : Storage) (id : NodeId) :
+    exec (fuel + 1) P s id = execBody fuel P (pushTop s id) id := rfl
+
+/-- what a top-level execution of a call-free function does (after the push) -/
+theorem execBody_flat {P : Prog} (hflat : Flat P) (c : NodeId → Res Nat) (n : Nat) (s0 : Storage) (id : NodeId) (v : Nat)
+    (hinv0 : Inv1 P s0) (hv : evalPS c P s0.srcs s0.maps (fnOf P id.fn).body id.arg = .ok v) :
+    ∃ s' b r, execBody n P s0 id = (s', .ok b) ∧ Inv1 P s' ∧ alookup s'.derived id = some r ∧ r.val = v ∧
+      s'.epoch = s0.epoch ∧ s'.srcs = s0.srcs ∧ s'.maps = s0.maps ∧ s'.poisoned = s0.poisoned := by
+  have hst0 := hinv0.stack
+  unfold execBody
+  cases hl : alookup s0.derived id with
+  | none =>
+    simp only
+    obtain ⟨fr', hi, r⟩ := invoke_flat (callVia (exec n P)) c hflat s0 id v hst0 hv
+    simp only [hi]
+    refine ⟨_, true, Rev.mk v fr'.maxTu s0.epoch fr'.rdeps.reverse, rfl, ?_, ?_, rfl, ?_⟩
+    · refine ⟨?_, ?_, ?_⟩
+      · simp [regDep, hst0]
+      · intro k nd hk; simp [regDep, hst0] at hk ⊢; exact hinv0.srcTu k nd hk
+      · intro n' r' hn'
+        simp only [regDep, hst0] at hn'
+        have hnode := nodeOk_fresh_exec (s := s0) r fr'.maxTu rfl rfl rfl hinv0.srcTu
+        by_cases hid : id = n'
+        · subst hid
+          rw [alookup_ainsert_self] at hn'; cases hn'
+          exact hnode.congr (by simp [regDep, hst0]) (by simp [regDep, hst0]) (by simp [regDep, hst0])
+        · rw [alookup_ainsert_ne _ _ _ _ hid] at hn'
+          exact (hinv0.nodes n' r' hn').congr (by simp [regDep, hst0]) (by simp [regDep, hst0]) (by simp [regDep, hst0])
+    · simp only [regDep, hst0]; exact alookup_ainsert_self _ _ _
+    · simp [regDep, hst0]
+  | some rev =>
+    simp only
+    have hok := hinv0.nodes id rev hl
+    by_cases htv : rev.tv = s0.epoch
+    · simp only [if_pos htv]
+      refine ⟨_, false, rev, rfl, ?_, ?_, ?_, ?_⟩
+      · exact hinv0.congr (by simp [regDep, hst0]) (by simp [regDep, hst0]) (by simp [regDep, hst0]) (by simp [regDep, hst0]) (by simp [regDep, hst0])
+      · simp only [regDep, hst0]; exact hl
+      · have := hok.sound (hok.fresh_now htv) s0.srcs s0.maps c (fun _ _ => rfl)
+        rw [hv] at this; cases this; rfl
+      · simp [regDep, hst0]
+    · simp only [if_neg htv]
+      -- `verify_derived_node`
+      have hsetTv : setTv s0 id s0.epoch = { s0 with derived := ainsert s0.derived id (Rev.mk rev.val rev.tu s0.epoch rev.deps) } := by
+        simp [setTv, hl]
+      rw [hsetTv]
+      have hlt : ∀ d, d ∈ rev.deps → d.stamp < s0.epoch := by
+        intro d hd
+        have h1 := hok.stamps d hd
+        have h2 := hok.tv_le
+        omega
+      obtain ⟨b, hb, hfb⟩ := anyDep_srcOnly (exec n P)
+        rev.deps { s0 with derived := ainsert s0.derived id (Rev.mk rev.val rev.tu s0.epoch rev.deps) } hok.srcOnly hlt
+      simp only [hb]
+      -- the state in which the node counts as verified
+      have hinv1 : ∀ (r1 : Rev), r1.tv = s0.epoch → NodeOk P s0 id r1 →
+          Inv1 P { s0 with derived := ainsert s0.derived id r1 } := by
+        intro r1 _ hr1
+        refine ⟨hst0, hinv0.srcTu, ?_⟩
+        intro n' r' hn'
+        by_cases hid : id = n'
+        · subst hid
+          simp only [alookup_ainsert_self] at hn'; cases hn'
+          exact hr1.congr rfl rfl rfl
+        · simp only [alookup_ainsert_ne _ _ _ _ hid] at hn'
+          exact (hinv0.nodes n' r' hn').congr rfl rfl rfl
+      cases b with
+      | false =>
+        simp only
+        have hfresh : DepsFresh s0 rev.deps := hfb rfl
+        have hnode : NodeOk P s0 id (Rev.mk rev.val rev.tu s0.epoch rev.deps) :=
+          ⟨Nat.le_refl _, hok.srcOnly, fun d hd => Nat.le_of_lt (hlt d hd), fun _ => hfresh, fun hf => hok.sound hf⟩
+        refine ⟨_, false, Rev.mk rev.val rev.tu s0.epoch rev.deps, rfl, ?_, ?_, ?_, ?_⟩
+        · exact (hinv1 _ rfl hnode).congr (by simp [regDep, hst0]) (by simp [regDep, hst0]) (by simp [regDep, hst0]) (by simp [regDep, hst0]) (by simp [regDep, hst0])
+        · simp only [regDep, hst0]; exact alookup_ainsert_self _ _ _
+        · have := hok.sound hfresh s0.srcs s0.maps c (fun _ _ => rfl)
+          rw [hv] at this; cases this; rfl
+        · simp [regDep, hst0]
+      | true =>
+        simp only
+        obtain ⟨fr', hi, r⟩ := invoke_flat (callVia (exec n P)) c hflat
+          { s0 with derived := ainsert s0.derived id (Rev.mk rev.val rev.tu s0.epoch rev.deps) } id v hst0 hv
+        simp only [hi, alookup_ainsert_self]
+        have hnode : ∀ tu, NodeOk P s0 id (Rev.mk v tu s0.epoch fr'.rdeps.reverse) := fun tu =>
+          nodeOk_fresh_exec (s := s0) r tu rfl rfl rfl hinv0.srcTu
+        by_cases hval : rev.val ≠ v
+        · simp only [if_pos hval]
+          refine ⟨_, true, Rev.mk v fr'.maxTu s0.epoch fr'.rdeps.reverse, rfl, ?_, ?_, rfl, ?_⟩
+          · refine ⟨by simp [regDep, hst0], ?_, ?_⟩
+            · intro k nd hk; simp [regDep, hst0] at hk ⊢; exact hinv0.srcTu k nd hk
+            · intro n' r' hn'
+              simp only [regDep, hst0] at hn'
+              by_cases hid : id = n'
+              · subst hid
+                rw [alookup_ainsert_self] at hn'; cases hn'
+                exact (hnode _).congr (by simp [regDep, hst0]) (by simp [regDep, hst0]) (by simp [regDep, hst0])
+              · rw [alookup_ainsert_ne _ _ _ _ hid, alookup_ainsert_ne _ _ _ _ hid] at hn'
+                exact (hinv0.nodes n' r' hn').congr (by simp [regDep, hst0]) (by simp [regDep, hst0]) (by simp [regDep, hst0])
+          · simp only [regDep, hst0]; exact alookup_ainsert_self _ _ _
+          · simp [regDep, hst0]
+        · simp only [if_neg hval]
+          have hval' : rev.val = v := Decidable.of_not_not hval
+          refine ⟨_, false, Rev.mk rev.val rev.tu s0.epoch fr'.rdeps.reverse, rfl, ?_, ?_, hval', ?_⟩
+          · refine ⟨by simp [regDep, hst0], ?_, ?_⟩
+            · intro k nd hk; simp [regDep, hst0] at hk ⊢; exact hinv0.srcTu k nd hk
+            · intro n' r' hn'
+              simp only [regDep, hst0] at hn'
+              by_cases hid : id = n'
+              · subst hid
+                rw [alookup_ainsert_self] at hn'; cases hn'
+                rw [hval']
+                exact (hnode _).congr (by simp [regDep, hst0]) (by simp [regDep, hst0]) (by simp [regDep, hst0])
+              · rw [alookup_ainsert_ne _ _ _ _ hid, alookup_ainsert_ne _ _ _ _ hid] at hn'
+                exact (hinv0.nodes n' r' hn').congr (by simp [regDep, hst0]) (by simp [regDep, hst0]) (by simp [regDep, hst0])
+          · simp only [regDep, hst0]; exact alookup_ainsert_self _ _ _
+          · simp [regDep, hst0]
+
+
+theorem exec_flat {P : Prog} (hflat : Flat P) (c : NodeId → Res Nat) (n : Nat) (s : Storage) (id : NodeId) (v : Nat)
+    (hinv : Inv1 P s) (hv : evalPS c P s.srcs s.maps (fnOf P id.fn).body id.arg = .ok v) :
+    ∃ s' b r, exec (n + 1) P s id = (s', .ok b) ∧ Inv1 P s' ∧ alookup s'.derived id = some r ∧ r.val = v ∧
+      s'.epoch = s.epoch ∧ s'.srcs = s.srcs ∧ s'.maps = s.maps ∧ s'.poisoned = s.poisoned := by
+  rw [exec_succ]
+  have hp : pushTop s id = { s with topCalls := s.topCalls ++ [id], pushes := s.pushes ++ [id] } := by
+    simp [pushTop, hinv.stack]
+  rw [hp]
+  exact execBody_flat hflat c n _ id v (hinv.congr hinv.stack rfl rfl rfl rfl) hv
+
+
+/-! ## source operations -/
+
+/-- a key is overwritten with a new stamp / removed, the epoch advances; everything else is as before -/
+theorem NodeOk.touch {P : Prog} {s : Storage} {n : NodeId} {r : Rev} (h : NodeOk P s n r) {s' : Storage} (k0 : Key)
+    (he : s'.epoch = s.epoch + 1)
+    (hk0 : alookup s'.srcs k0 = none ∨ ∃ nd, alookup s'.srcs k0 = some nd ∧ nd.tu = s.epoch + 1)
+    (hsame : ∀ k, k ≠ k0 → alookup s'.srcs k = alookup s.srcs k ∧ keyObs s'.srcs s'.maps k = keyObs s.srcs s.maps k) :
+    NodeOk P s' n r := by
+  have hnot : DepsFresh s' r.deps → k0 ∉ depKeys r.deps := by
+    intro hf hmem
+    obtain ⟨d, hd, hk⟩ := mem_depKeys.1 hmem
+    obtain ⟨nd, hnd, hle⟩ := hf d hd k0 hk
+    have h1 := h.stamps d hd
+    have h2 := h.tv_le
+    rcases hk0 with hk0 | ⟨nd', hnd', htu⟩
+    · rw [hk0] at hnd; cases hnd
+    · rw [hnd'] at hnd; cases hnd; omega
+  refine ⟨by rw [he]; exact Nat.le_succ_of_le h.tv_le, h.srcOnly, h.stamps, ?_, ?_⟩
+  · intro ht; have := h.tv_le; omega
+  · intro hf σ' m' c' hag
+    have hk0' := hnot hf
+    refine h.sound ?_ σ' m' c' ?_
+    · intro d hd k hk
+      have hne : k ≠ k0 := fun e => hk0' (e ▸ mem_depKeys.2 ⟨d, hd, hk⟩)
+      have := hf d hd k hk
+      rw [(hsame k hne).1] at this; exact this
+    · intro k hk
+      have hne : k ≠ k0 := fun e => hk0' (e ▸ hk)
+      rw [← (hsame k hne).2]; exact hag k hk
+
+/-- a key that was absent is inserted without advancing the epoch -/
+theorem NodeOk.vacant {P : Prog} {s : Storage} {n : NodeId} {r : Rev} (h : NodeOk P s n r) {s' : Storage} (k0 : Key)
+    (he : s'.epoch = s.epoch) (habs : alookup s.srcs k0 = none)
+    (hk0 : ∃ nd, alookup s'.srcs k0 = some nd ∧ nd.tu = s.epoch)
+    (hsame : ∀ k, k ≠ k0 → alookup s'.srcs k = alookup s.srcs k ∧ keyObs s'.srcs s'.maps k = keyObs s.srcs s.maps k) :
+    NodeOk P s' n r := by
+  -- a fresh node (in either state) does not mention the key
+  have hnot' : DepsFresh s' r.deps → k0 ∉ depKeys r.deps := by
+    intro hf hmem
+    obtain ⟨d, hd, hk⟩ := mem_depKeys.1 hmem
+    obtain ⟨nd, hnd, hle⟩ := hf d hd k0 hk
+    obtain ⟨nd', hnd', htu⟩ := hk0
+    rw [hnd'] at hnd; cases hnd
+    have h1 := h.stamps d hd
+    have h2 := h.tv_le
+    have htv : r.tv = s.epoch := by omega
+    obtain ⟨nd2, hnd2, _⟩ := h.fresh_now htv d hd k0 hk
+    rw [habs] at hnd2; cases hnd2
+  have hnot : DepsFresh s r.deps → k0 ∉ depKeys r.deps := by
+    intro hf hmem
+    obtain ⟨d, hd, hk⟩ := mem_depKeys.1 hmem
+    obtain ⟨nd, hnd, _⟩ := hf d hd k0 hk
+    rw [habs] at hnd; cases hnd
+  refine ⟨by rw [he]; exact h.tv_le, h.srcOnly, h.stamps, ?_, ?_⟩
+  · intro ht
+    have hf := h.fresh_now (by rw [← he]; exact ht)
+    have hk0' := hnot hf
+    intro d hd k hk
+    have hne : k ≠ k0 := fun e => hk0' (e ▸ mem_depKeys.2 ⟨d, hd, hk⟩)
+    rw [(hsame k hne).1]; exact hf d hd k hk
+  · intro hf σ' m' c' hag
+    have hk0' := hnot' hf
+    refine h.sound ?_ σ' m' c' ?_
+    · intro d hd k hk
+      have hne : k ≠ k0 := fun e => hk0' (e ▸ mem_depKeys.2 ⟨d, hd, hk⟩)
+      have := hf d hd k hk
+      rw [(hsame k hne).1] at this; exact this
+    · intro k hk
+      have hne : k ≠ k0 := fun e => hk0' (e ▸ hk)
+      rw [← (hsame k hne).2]; exact hag k hk
+
+theorem keyObs_of_lookup_maps {σ σ' : List (Key × SrcNode)} {m m' : List (List Nat)} {k : Key}
+    (h1 : alookup σ' k = alookup σ k) (h2 : ∀ i, k = .ctr i → mapLen m' i = mapLen m i) :
+    keyObs σ' m' k = keyObs σ m k := by
+  unfold keyObs
+  rw [h1]
+  cases k with
+  | src n => rfl
+  | sing i => rfl
+  | ctr i => simp [h2 i rfl]
+
+/-- `setSource` followed by an arbitrary change of the tracked field `mm` guarded by the counter `k0`
+(`mm = none`: no tracked field changes) -/
+theorem Inv1.setSource {P : Prog} {s : Storage} (h : Inv1 P s) (k0 : Key) (v : Nat) (maps' : List (List Nat))
+    (hmaps : ∀ i, Key.ctr i ≠ k0 → mapLen maps' i = mapLen s.maps i)
+    (hchg : alookup s.srcs k0 = none ∨ (∃ nd, alookup s.srcs k0 = some nd ∧ nd.val ≠ v) ∨ maps' = s.maps) :
+    Inv1 P { setSource s k0 v with maps := maps' } := by
+  unfold IsoVerif.Pico.setSource
+  cases hl : alookup s.srcs k0 with
+  | none =>
+    simp only
+    refine ⟨h.stack, ?_, ?_⟩
+    · intro k nd hk
+      simp only [alookup_ainsert] at hk
+      by_cases hkk : k0 = k
+      · simp [hkk] at hk; subst hk; exact Nat.le_refl _
+      · simp [hkk] at hk; exact h.srcTu k nd hk
+    · intro n r hn
+      refine (h.nodes n r hn).vacant k0 rfl hl ⟨⟨v, s.epoch⟩, alookup_ainsert_self _ _ _, rfl⟩ ?_
+      intro k hne
+      have h1 : alookup (ainsert s.srcs k0 ⟨v, s.epoch⟩) k = alookup s.srcs k := alookup_ainsert_ne _ _ _ _ (Ne.symm hne)
+      exact ⟨h1, keyObs_of_lookup_maps h1 (fun i hi => hmaps i (by rw [← hi]; exact hne))⟩
+  | some nd =>
+    simp only
+    by_cases hv : nd.val ≠ v
+    · simp only [if_pos hv]
+      refine ⟨h.stack, ?_, ?_⟩
+      · intro k nd' hk
+        simp only [alookup_ainsert] at hk
+        by_cases hkk : k0 = k
+        · simp [hkk] at hk; subst hk; exact Nat.le_refl _
+        · simp [hkk] at hk; exact Nat.le_succ_of_le (h.srcTu k nd' hk)
+      · intro n r hn
+        refine (h.nodes n r hn).touch k0 rfl (Or.inr ⟨⟨v, s.epoch + 1⟩, alookup_ainsert_self _ _ _, rfl⟩) ?_
+        intro k hne
+        have h1 : alookup (ainsert s.srcs k0 ⟨v, s.epoch + 1⟩) k = alookup s.srcs k := alookup_ainsert_ne _ _ _ _ (Ne.symm hne)
+        exact ⟨h1, keyObs_of_lookup_maps h1 (fun i hi => hmaps i (by rw [← hi]; exact hne))⟩
+    · simp only [if_neg hv]
+      -- nothing changes, so the tracked field must be unchanged as well
+      have hm : maps' = s.maps := by
+        rcases hchg with hc | ⟨nd', hnd', hne⟩ | hc
+        · rw [hl] at hc; cases hc
+        · rw [hl] at hnd'; cases hnd'; exact absurd hne hv
+        · exact hc
+      exact h.congr h.stack rfl rfl hm rfl
+
+theorem Inv1.removeSource {P : Prog} {s : Storage} (h : Inv1 P s) (k0 : Key) : Inv1 P (removeSource s k0) := by
+  unfold IsoVerif.Pico.removeSource
+  cases hl : alookup s.srcs k0 with
+  | none => exact h
+  | some nd =>
+    simp only
+    refine ⟨h.stack, ?_, ?_⟩
+    · intro k nd' hk
+      by_cases hkk : k0 = k
+      · subst hkk; rw [alookup_aerase_self] at hk; cases hk
+      · rw [alookup_aerase_ne _ _ _ hkk] at hk; exact Nat.le_succ_of_le (h.srcTu k nd' hk)
+    · intro n r hn
+      refine (h.nodes n r hn).touch k0 rfl (Or.inl (alookup_aerase_self _ _)) ?_
+      intro k hne
+      have h1 : alookup (aerase s.srcs k0) k = alookup s.srcs k := alookup_aerase_ne _ _ _ (Ne.symm hne)
+      exact ⟨h1, keyObs_of_lookup_maps h1 (fun _ _ => rfl)⟩
 
 end IsoVerif.Pico
